@@ -191,8 +191,9 @@ class Run:
         cmd = ['cbmc', allgb, '--function', q.entry, '--unwind', str(q.unwind), '--object-bits', str(q.object_bits),
                '--no-malloc-may-fail', '--drop-unused-functions', '--trace', '--trace-hex',
                '--pointer-overflow-check']
-        if q.unwindset:
-            cmd += ['--unwindset', ','.join('%s:%d' % kv for kv in q.unwindset.items())]
+        us = dict(LIBC_UNWIND)
+        us.update(q.unwindset)
+        cmd += ['--unwindset', ','.join('%s:%d' % kv for kv in us.items())]
         cmd += BACKENDS[backend] + q.flags
         return cmd
 
@@ -417,6 +418,9 @@ class Run:
         return 0
 
 
+# loops of harness/libc_models.c: word loops up to 40 words, byte loops up to 72 bytes (checked by unwinding assertions)
+LIBC_UNWIND = {'memmove.0': 41, 'memmove.1': 41, 'memmove.2': 73, 'memmove.3': 73, 'memcpy.0': 41, 'memcpy.1': 73,
+               'memset.0': 41, 'memset.1': 73}
 SIGN_RE = re.compile(r'\(sexp_sint_t\) ?([A-Za-z_][A-Za-z_0-9]*) < 0')
 RESIDUAL_RE = re.compile(r'\(sexp_sint_t\) ?\(?[A-Za-z_][A-Za-z_0-9]*\)? *(<|<=|>|>=) *0(?![0-9x.])')
 PROP_RE = re.compile(r'^\[([^\]]+)\] (?:line \d+ )?(.*): (SUCCESS|FAILURE|UNKNOWN|ERROR)\s*$')
